@@ -162,6 +162,11 @@ def run(ctx):
         if f9 is not None:
             c12.eof_or_partial(ctx, "C05.R9", f9, allow_zero=True)
 
+    ctx.rule("C05.R10", "A10 writer scratch buffer: the BAM writers (sync, async) clear their record buffer on every path before the encoder "
+                        "fills it, so that the block written is exactly this record (a rejected record leaves partial output behind)")
+    from .. import a10
+    a10.scratch_buffer_rule(ctx, "C05.R10", r"^<?noodles_bam::", 2)
+
     ctx.rule("C05.R6", "A7 dec∘enc = id exhaustively for CIGAR kind / aux type / array subtype tables; sentinels agree")
     a7.table_agreement(ctx, "C05.R6", {"noodles_bam"}, 3)
     R.const_rule(ctx, "C05.R6", "UNMAPPED_BIN", {"b": B + "record::codec::encoder::bin::UNMAPPED_BIN"},
